@@ -161,7 +161,7 @@ impl Monitor for C20 {
         }
         // (c) stepwise creation, all four orders
         for route in ROUTES {
-            let style = *rng.pick(&[AttrStyle::Map, AttrStyle::Node, AttrStyle::Any]);
+            let style = *rng.pick(&crate::build::STYLES);
             let mut x = Xot::new();
             match guard(|| build::build(&mut x, &doc, route, style)) {
                 Ok(Ok(h)) => match (snap_guarded(&x, h.node), ser(&x, h.node)) {
